@@ -101,6 +101,10 @@ impl Default for Tokens {
 
 fn random() -> [u8; SECRET_SIZE] {
     let mut bytes = [0_u8; SECRET_SIZE];
+    #[cfg(mainline_verif)]
+    if crate::verif::fill(&mut bytes) {
+        return bytes;
+    }
     getrandom::fill(&mut bytes).expect("getrandom");
 
     bytes
